@@ -298,30 +298,48 @@ class Sorter:
         """Spills all the objects to disk"""
         if self._objects_in_memory > 0:
             desc, path = tempfile.mkstemp(".gz", dir=self._tmp_dir)
-            # TODO: delete on exit!
-
-            handle = gzip.open(path, "wb")
-            self.__sort_stash()
-            for i in range(self._objects_in_memory):
-                entry = self._stash[i]
-                data = entry.data
-                handle.write(struct.pack('i', len(data)))
-                handle.write(memoryview(data))
-                self._stash[i] = None
-            handle.close()
+            # register the file straight away so that close() cleans it up
+            # even if writing it fails
             self._paths.append(path)
             self._fds.append(desc)
+
+            handle = gzip.open(path, "wb")
+            try:
+                self.__sort_stash()
+                for i in range(self._objects_in_memory):
+                    entry = self._stash[i]
+                    data = entry.data
+                    handle.write(struct.pack('i', len(data)))
+                    handle.write(memoryview(data))
+                    self._stash[i] = None
+            finally:
+                handle.close()
             self._objects_in_memory = 0
 
     def close(self) -> None:
-        """Closes all temporary files."""
+        """Closes all temporary files.  Every file is attempted even if an
+        earlier one fails; the first error is raised at the end, and a file
+        that could not be removed is kept so that close() can be retried."""
+        error: Optional[OSError] = None
+        remaining_paths: list = []
+        remaining_fds: list = []
         for path, desc in zip(self._paths, self._fds):
+            if desc is not None:
+                try:
+                    os.close(desc)
+                except OSError as exception:
+                    error = error or exception
             try:
-                os.close(desc)
                 os.remove(path)
             except OSError as exception:
                 if exception.errno != errno.ENOENT:
-                    raise exception
+                    error = error or exception
+                    remaining_paths.append(path)
+                    remaining_fds.append(None)
+        self._paths = remaining_paths
+        self._fds = remaining_fds
+        if error is not None:
+            raise error
 
 
 class MafSorter(Sorter):
